@@ -21,6 +21,7 @@ EXPLANATION = (
     "for reading anywhere.  R18.4: the reader returns its list of loaded objects only under a non-emptiness test, so an "
     "empty/truncated file yields None (what the consumers test for), never [].  R18.5: each handle opened by a data writer receives exactly one serialisation record per save (no dump in a loop, no second dump), "
     "so a strict prefix of the file is never a complete shorter value.  R18.6: data files are opened for writing with a truncating mode only.  R18.7: rebuilding changes from the saved history calls no lookup that raises for a missing path.  Which version survives a crash is not decided."
+    ' R18.4 also: an element of the list of loaded records is taken only where the list is known to be non-empty.'
 )
 ASSUMPTIONS = [
     "a strict prefix of a valid pickle stream makes pickle.load raise EOFError or pickle.UnpicklingError (CPython behaviour)",
